@@ -565,6 +565,48 @@ func (vc *VC) specCall(x CCall, env *SpecEnv) Term {
 	case "store":
 		a := args()
 		return Term{fmt.Sprintf("(store %s %s %s)", a[0].S, a[1].S, a[2].S), a[0].Sort, a[0].T}
+	case "sprintf":
+		if f, ok := x.Args[0].(CStr); ok {
+			var as []Term
+			for _, a := range x.Args[1:] {
+				as = append(as, vc.spec(a, env))
+			}
+			return vc.fmtFn(f.V, as)
+		}
+		return vc.specFail("sprintf needs a literal format")
+	case "mkstruct":
+		// mkstruct(T, f1, f2, ...): struct value with the fields in declaration order
+		if len(x.Args) == 0 {
+			return vc.specFail("mkstruct needs a type")
+		}
+		tname := ""
+		switch tx := x.Args[0].(type) {
+		case CIdent:
+			tname = tx.Name
+		case CSel:
+			if id, ok := tx.X.(CIdent); ok {
+				tname = id.Name + "." + tx.Name
+			}
+		}
+		t, err := vc.w.resolveTypeText(env.pkg, tname)
+		if err != nil {
+			return vc.specFail("mkstruct: %v", err)
+		}
+		ts := vc.ss.sortOf(t)
+		si := vc.ss.info[ts]
+		if si == nil || si.Kind != "struct" || len(si.Fields) != len(x.Args)-1 {
+			return vc.specFail("mkstruct(%s): not a struct with %d fields", tname, len(x.Args)-1)
+		}
+		var parts []string
+		for i, f := range si.Fields {
+			v := vc.spec(x.Args[i+1], env)
+			v = vc.convertTo(v, v.T, f.T, token.NoPos)
+			parts = append(parts, v.S)
+		}
+		if len(parts) == 0 {
+			return Term{"mk." + string(ts), ts, t}
+		}
+		return Term{fmt.Sprintf("(mk.%s %s)", ts, strings.Join(parts, " ")), ts, t}
 	case "inj":
 		// inj(v, IfaceType): inject concrete v into interface
 		v := vc.spec(x.Args[0], env)
@@ -598,6 +640,9 @@ func (vc *VC) specCall(x CCall, env *SpecEnv) Term {
 // into an interface, or construction of a one-field struct.
 func (vc *VC) specConv(t types.Type, v Term) Term {
 	ts := vc.ss.sortOf(t)
+	if v.Sort == "Nil" {
+		return vc.ss.zeroOfSort(ts, t)
+	}
 	if ts == v.Sort {
 		v.T = t
 		return v
